@@ -15,6 +15,10 @@ def run(tier, seed):
     nl, rq = (8, 60) if tier == "quick" else (80, 80)
     netcommon.corpus_stage(v, wd, seed, nl, rq)
     netcommon.random_lists(v, wd, seed + 0, 300 if tier == "quick" else 3000)
+    # the less travelled paths: rules added one at a time (add_filter histories) and engines loaded from images
+    from checks import enginecommon
+    enginecommon.histories(v, wd, "blocker", 3 if tier == "quick" else 4)
+    netcommon.mc_and_replay(v, wd, "randr", 300 if tier == "quick" else 3000, False, workers=12, extra=["-seed", str(seed + 3000)])
     return v.finish("model_checking", "lists of <= %d rules" % k, exhaustive=True)
 
 
